@@ -194,6 +194,7 @@ def run_case(case):
         res["t_end"] = sched.now
         if closer:
             closer.join()
+        res["alive_after"] = [t.name for t in sched.threads if t.state not in ("new", "done") and getattr(t.target, "__name__", "") == "_send_ping"]
 
     with simkit.installed(sched, net):
         try:
@@ -209,6 +210,8 @@ def run_case(case):
         return _cls(obs, case, 0)
     for kind, msg in problems[:2]:
         obs.fail(f"{tag}|{kind}", msg)
+    if res.get("alive_after") and not ext:
+        obs.fail(f"{tag}|ping-thread-alive-after-run", f"ping threads {res['alive_after']} still alive when run_forever had returned")
     for e in res.get("rel_errors", []):
         obs.fail(exc_bucket(f"{tag}|exception-escaped-into-external-loop", e), f"{type(e).__name__}: {e}")
     # expected attempt times: walk the *observed* attempts, predicting each next one from the previous outcome
